@@ -509,3 +509,67 @@ pub fn check_auth_final(sim: &mut Sim) -> Result<(), Fail> {
     }
     Ok(())
 }
+
+/// C12 end to end, per frame: a tick is reported at most once and only when every message sent for it was handed over.
+pub fn read_tick_log(sim: &mut Sim, i: usize) {
+    let log = &sim.clients[i].app.world().resource::<TickLog>().0;
+    let new: Vec<u32> = log[sim.tick_log_pos[i]..].to_vec();
+    sim.tick_log_pos[i] = log.len();
+    for t in new {
+        let fired = {
+            let f = sim.tick_fired[i].entry(t).or_default();
+            *f += 1;
+            *f
+        };
+        let sent = sim.mut_sent[i].get(&t).copied();
+        let delivered = sim.mut_delivered[i].get(&t).copied().unwrap_or(0);
+        if fired > 1 {
+            sim.fail("C12.fired_twice", format!("client {i}: MutateTickReceived for tick {t} fired {fired} times"));
+        }
+        match sent {
+            None => sim.fail("C12.fired_unknown_tick", format!("client {i}: MutateTickReceived for tick {t} for which no mutate message was sent")),
+            Some(n) if delivered < n => sim.fail(
+                "C12.fired_incomplete",
+                format!("client {i}: MutateTickReceived for tick {t} after {delivered} of {n} messages"),
+            ),
+            _ => {}
+        }
+    }
+}
+
+/// C12 end to end at quiescence: reported exactly the ticks whose messages all arrived; the tracker agrees.
+pub fn check_mutate_ticks_final(sim: &mut Sim) -> Result<(), Fail> {
+    use bevy_replicon::client::server_mutate_ticks::ServerMutateTicks;
+    use bevy_replicon::shared::replicon_tick::RepliconTick;
+    for i in 0..sim.clients.len() {
+        if !sim.authorized(i) {
+            continue;
+        }
+        let Some(ticks) = sim.clients[i].app.world().get_resource::<ServerMutateTicks>() else {
+            return Err(Fail::new("C12.no_tracker", "ServerMutateTicks resource missing although tracking is enabled".to_string()));
+        };
+        let last = ticks.last_tick().get();
+        for (&t, &n) in &sim.mut_sent[i] {
+            if last.wrapping_sub(t) >= 64 {
+                continue;
+            }
+            let delivered = sim.mut_delivered[i].get(&t).copied().unwrap_or(0);
+            let complete = delivered == n;
+            let fired = sim.tick_fired[i].get(&t).copied().unwrap_or(0);
+            if complete && fired != 1 {
+                return Err(Fail::new("C12.not_fired", format!("client {i}: all {n} messages of tick {t} were applied but the notification fired {fired} times")));
+            }
+            if !complete && fired != 0 {
+                return Err(Fail::new("C12.fired_incomplete", format!("client {i}: tick {t} reported with {delivered} of {n} messages")));
+            }
+            let got = ticks.contains(RepliconTick::new(t));
+            if got != complete {
+                return Err(Fail::new(
+                    "C12.contains_e2e",
+                    format!("client {i}: ServerMutateTicks::contains({t}) = {got} with {delivered} of {n} messages delivered (last tick {last})"),
+                ));
+            }
+        }
+    }
+    Ok(())
+}
